@@ -32,3 +32,58 @@ Proof.
     exists 0%nat. rewrite Nat.add_0_r. apply Nat.leb_gt in El. repeat split; auto.
   - destruct (IH (S i) c r H) as (j & Hn & Hc & Hl & Hh). exists (S j). rewrite Nat.add_succ_r. cbn in *. repeat split; auto.
 Qed.
+
+(* ---- at any nesting depth: the range of hover data is the extent of an attribute, a block's type keyword or one of its labels ---- *)
+Fixpoint hover_item_ranges (b : body) : list range :=
+  match b with
+  | Body attrs blocks _ _ =>
+      (map a_rng attrs ++
+        (fix go (l : list block) : list range :=
+           match l with
+           | [] => []
+           | Block _ _ lrs tr _ _ _ _ kb :: rest => tr :: (lrs ++ hover_item_ranges kb ++ go rest)
+           end) blocks)%list
+  end.
+
+Definition block_hover_ranges (k : block) : list range :=
+  match k with Block _ _ lrs tr _ _ _ _ kb => tr :: (lrs ++ hover_item_ranges kb)%list end.
+
+Lemma hover_item_ranges_eq attrs blocks r e :
+  hover_item_ranges (Body attrs blocks r e) = (map a_rng attrs ++ flat_map block_hover_ranges blocks)%list.
+Proof.
+  cbn [hover_item_ranges]. f_equal.
+  induction blocks as [|k rest IH]; [reflexivity|].
+  destruct k as [t ls lrs tr o c rg d kb]. cbn [flat_map block_hover_ranges]. rewrite IH.
+  cbn [app]. f_equal. now rewrite <- !app_assoc.
+Qed.
+
+Theorem hover_range_is_an_item p b0 : forall bs c r,
+  hover_body p b0 bs = HHover c r -> In r (hover_item_ranges b0) /\ contains_pos r p = true.
+Proof.
+  apply (body_ind'
+    (fun b => forall bs c r, hover_body p b bs = HHover c r -> In r (hover_item_ranges b) /\ contains_pos r p = true)
+    (fun k => forall bs c r, hover_body p (k_body k) bs = HHover c r -> In r (hover_item_ranges (k_body k)) /\ contains_pos r p = true)).
+  - intros attrs blocks rg e IH bs c r H. rewrite hover_item_ranges_eq. cbn [hover_body b_attrs b_blocks] in H.
+    destruct (hover_attrs p attrs bs) as [o|] eqn:Ea.
+    + subst o. apply attr_hover_range_is_the_attribute in Ea as (a & Hin & -> & _ & Hc & _).
+      split; [apply in_or_app; left; apply in_map; exact Hin | exact Hc].
+    + match type of H with match ?X with _ => _ end = _ => destruct X as [o|] eqn:Eb; [subst o|discriminate] end.
+      enough (In r (flat_map block_hover_ranges blocks) /\ contains_pos r p = true) as (H1 & H2)
+        by (split; [apply in_or_app; right; exact H1 | exact H2]).
+      clear Ea. induction IH as [|k rest Hk _ IHr]; [discriminate|]. cbn [flat_map].
+      destruct (contains_pos (k_rng k) p); [|destruct (IHr Eb) as (H1 & H2); split; [apply in_or_app; right; exact H1 | exact H2]].
+      destruct (alookup (k_type k) (bs_blocks bs)) as [sc|]; [|discriminate].
+      destruct (contains_pos (k_type_rng k) p) eqn:Et.
+      { injection Eb as <- <-. split; [|exact Et]. apply in_or_app; left. destruct k; left; reflexivity. }
+      destruct (hover_labels p k sc 0 (k_label_rngs k)) as [o|] eqn:El.
+      { injection Eb as ->. apply label_hover_range_is_the_label in El as (j & Hn & Hc & _).
+        split; [|exact Hc]. apply in_or_app; left. destruct k as [t ls lrs tr o c0 r0 d kb]. cbn in *.
+        right. apply in_or_app; left. eapply nth_error_In; exact Hn. }
+      destruct (is_pos_outside_body k p); [discriminate|].
+      destruct k as [t ls lrs tr o c0 r0 d kb]. cbn [k_body] in *.
+      destruct (contains_pos (b_rng kb) p); [|destruct (IHr Eb) as (H1 & H2); split; [apply in_or_app; right; exact H1 | exact H2]].
+      destruct (merge_block_body_schemas sc _) as [m res]. injection Eb as Eb.
+      destruct (Hk m c r Eb) as (H1 & H2). split; [|exact H2].
+      apply in_or_app; left. cbn [block_hover_ranges]. right. apply in_or_app; right. exact H1.
+  - intros t ls lrs tr o c r d kb IH bs c0 r0 H. cbn [k_body] in *. exact (IH bs c0 r0 H).
+Qed.
